@@ -776,3 +776,91 @@ package mast
 //@ ensures ok [C10] (=> (= err anil) (CursorOK H c))
 //@ loop 1 invariant ok [C10] (and (CursorOK H c) (> (sl.len (Cursor.path H c)) 0))
 //@ loop 2 invariant ok [C10] (and (CursorOK H c) (> (sl.len (Cursor.path H c)) 0) (> node 0))
+
+// ---------------------------------------------------------------------------------------
+// Diff (C06, C07, C15)
+
+//@ smt (define-fun thingsOf ((h Heap) (st Int)) Slice (iterItemStack.things h st))
+//@ smt (define-fun itemAt ((h Heap) (st Int) (j Int)) S_iterItem (Arr.S_iterItem.at h (sl.arr (iterItemStack.things h st)) (+ (sl.off (iterItemStack.things h st)) j)))
+//@ smt (define-fun stackLen ((h Heap) (st Int)) Int (sl.len (iterItemStack.things h st)))
+// StackOK: every item is a yield or carries a well-formed non-nil link
+//@ smt (define-fun ItemOK ((h Heap) (it S_iterItem)) Bool (or (isNil (S_iterItem.considerLink it)) (and (LinkOK (S_iterItem.considerLink it)) (=> (isPtr (S_iterItem.considerLink it)) (Shape h (a.val (S_iterItem.considerLink it)))))))
+//@ smt (define-fun StackOK ((h Heap) (st Int)) Bool (forall ((j Int)) (! (=> (and (<= 0 j) (< j (stackLen h st))) (ItemOK h (itemAt h st j))) :pattern ((itemAt h st j)))))
+// StackOKnil: like StackOK, and no item carries a nil link without being a yield that was pushed as one
+// (the initial stacks must not contain the nil root of an emptied tree)
+//@ smt (define-fun StackOKnil ((h Heap) (st Int)) Bool (forall ((j Int)) (! (=> (and (<= 0 j) (< j (stackLen h st))) (not (and (isNil (S_iterItem.considerLink (itemAt h st j))) (isNil (S_entry.Key (S_iterItem.yield (itemAt h st j))))))) :pattern ((itemAt h st j)))))
+// StackPrefix: the first n items of stack st are unchanged between h0 and h
+//@ smt (define-fun StackPrefix ((h0 Heap) (h Heap) (st Int) (n Int)) Bool (forall ((j Int)) (! (=> (and (<= 0 j) (< j n)) (= (itemAt h st j) (itemAt h0 st j))) :pattern ((itemAt h st j)) :pattern ((itemAt h0 st j)))))
+
+//@ func newIterItemStack
+//@ tags C06 C07
+//@ modifies W Arr.S_iterItem@fresh
+//@ ensures one (and (= (sl.len (S_iterItemStack.things result)) 1) (> (sl.arr (S_iterItemStack.things result)) W0) (= (Arr.S_iterItem.at H (sl.arr (S_iterItemStack.things result)) (sl.off (S_iterItemStack.things result))) item))
+
+//@ func (*iterItemStack).push
+//@ tags C06 C07 C15
+//@ modifies W iterItemStack.things Arr.S_iterItem
+//@ requires nn (and (not (= stack 0)) (> item 0))
+//@ ensures len [C06 C07] (= (stackLen H stack) (+ (stackLen H0 stack) 1))
+//@ ensures top [C06 C07] (= (itemAt H stack (stackLen H0 stack)) (mk_S_iterItem (iterItem.considerLink H0 item) (mk_S_entry (entry.Key H0 (inner item fid.iterItem.yield)) (entry.Value H0 (inner item fid.iterItem.yield)))))
+//@ ensures prefix [C06 C07] (StackPrefix H0 H stack (stackLen H0 stack))
+//@ ensures others [C06 C07] (forall ((q Int)) (! (=> (not (= q stack)) (= (iterItemStack.things H q) (iterItemStack.things H0 q))) :pattern ((iterItemStack.things H q))))
+
+//@ func (*iterItemStack).pushLink
+//@ tags C06 C07 C15
+//@ modifies W iterItemStack.things Arr.S_iterItem iterItem.*@fresh entry.*@fresh
+//@ requires nn (not (= stack 0))
+//@ ensures nil [C06 C07 C15] (=> (isNil link) (and (= (iterItemStack.things H stack) (iterItemStack.things H0 stack)) (= (h.Arr.S_iterItem H) (h.Arr.S_iterItem H0))))
+//@ ensures len [C06 C07] (=> (not (isNil link)) (and (= (stackLen H stack) (+ (stackLen H0 stack) 1)) (= (S_iterItem.considerLink (itemAt H stack (stackLen H0 stack))) link) (StackPrefix H0 H stack (stackLen H0 stack))))
+//@ ensures others [C06 C07] (forall ((q Int)) (! (=> (not (= q stack)) (= (iterItemStack.things H q) (iterItemStack.things H0 q))) :pattern ((iterItemStack.things H q))))
+
+//@ func (*iterItemStack).pushYield
+//@ tags C06 C07
+//@ modifies W iterItemStack.things Arr.S_iterItem iterItem.*@fresh entry.*@fresh
+//@ requires nn (and (not (= stack 0)) (> node 0) (<= 0 i) (< i (nkeys H node)) (< i (nvals H node)))
+//@ ensures len [C06] (and (= (stackLen H stack) (+ (stackLen H0 stack) 1)) (= (itemAt H stack (stackLen H0 stack)) (mk_S_iterItem anil (mk_S_entry (KeyAt H0 node i) (ValAt H0 node i)))) (StackPrefix H0 H stack (stackLen H0 stack)))
+//@ ensures others [C06 C07] (forall ((q Int)) (! (=> (not (= q stack)) (= (iterItemStack.things H q) (iterItemStack.things H0 q))) :pattern ((iterItemStack.things H q))))
+
+//@ func (*iterItemStack).pop
+//@ tags C06 C07 C15
+//@ modifies W iterItemStack.things iterItem.*@fresh entry.*@fresh
+//@ requires nn (not (= stack 0))
+//@ ensures empty [C06 C07] (=> (= (stackLen H0 stack) 0) (and (= result 0) (= (iterItemStack.things H stack) (iterItemStack.things H0 stack))))
+//@ ensures top [C06 C07] (=> (> (stackLen H0 stack) 0) (and (> result W0) (= (stackLen H stack) (- (stackLen H0 stack) 1)) (= (sl.arr (thingsOf H stack)) (sl.arr (thingsOf H0 stack))) (= (sl.off (thingsOf H stack)) (sl.off (thingsOf H0 stack))) (= (iterItem.considerLink H result) (S_iterItem.considerLink (itemAt H0 stack (- (stackLen H0 stack) 1)))) (= (entry.Key H (inner result fid.iterItem.yield)) (S_entry.Key (S_iterItem.yield (itemAt H0 stack (- (stackLen H0 stack) 1))))) (= (entry.Value H (inner result fid.iterItem.yield)) (S_entry.Value (S_iterItem.yield (itemAt H0 stack (- (stackLen H0 stack) 1)))))))
+//@ ensures others [C06 C07] (forall ((q Int)) (! (=> (not (= q stack)) (= (iterItemStack.things H q) (iterItemStack.things H0 q))) :pattern ((iterItemStack.things H q))))
+
+//@ func (*iterItemStack).pushNode
+//@ tags C06 C07
+//@ modifies W iterItemStack.things Arr.S_iterItem iterItem.*@fresh entry.*@fresh
+//@ requires nn (and (not (= stack 0)) (> node 0) (Shape H node))
+//@ ensures grows [C06 C07] (and (>= (stackLen H stack) (+ (stackLen H0 stack) (nkeys H0 node))) (StackPrefix H0 H stack (stackLen H0 stack)))
+//@ ensures others [C06 C07] (forall ((q Int)) (! (=> (not (= q stack)) (= (iterItemStack.things H q) (iterItemStack.things H0 q))) :pattern ((iterItemStack.things H q))))
+//@ loop 1 invariant idx [C06 C07] (and (<= (- 1) rangeindex) (>= (stackLen H stack) (+ (stackLen H0 stack) (* 2 (+ rangeindex 1)) (- 0 (+ rangeindex 1)))) (StackPrefix H0 H stack (stackLen H0 stack)) (Shape H node) (forall ((q Int)) (! (=> (not (= q stack)) (= (iterItemStack.things H q) (iterItemStack.things H0 q))) :pattern ((iterItemStack.things H q)))))
+
+//@ func (*diffState).resetCurrent
+//@ tags C06 C07
+//@ modifies diffState.addedLink diffState.removedLink diffState.curKey diffState.addedValue diffState.removedValue diffState.hasAdd diffState.hasRemove
+//@ requires nn (> dc 0)
+//@ ensures reset [C06 C07] (and (isNil (diffState.addedLink H dc)) (isNil (diffState.removedLink H dc)) (isNil (diffState.curKey H dc)) (isNil (diffState.addedValue H dc)) (isNil (diffState.removedValue H dc)) (not (diffState.hasAdd H dc)) (not (diffState.hasRemove H dc)))
+
+//@ func op
+//@ tags C06
+//@ pure
+//@ requires notboth [C06] (not (and removed added))
+//@ ensures table [C06] (= result (ite (and (not removed) (not added)) 2 (ite removed 1 0)))
+
+//@ func (*Mast).alreadyNotified
+//@ tags C06 C07 C15
+//@ modifies W G.loads Map.Int.Any Map.Int.Any.has Arr.Any@fresh Node.*@fresh mastNode.*@fresh Box.Bytes@fresh
+//@ requires nn (and (> m 0) (not (= (Mast.keyLayer H m) 0)) (> linkByHeight 0))
+//@ requires link [T3] (and (LinkOK link) (not (isNil link)) (=> (isPtr link) (Shape H (a.val link))) (AllOK H))
+//@ loop 1 invariant walk [T3] (and (AllOK H) (LinkOK myLink) (not (isNil myLink)) (=> (isPtr myLink) (Shape H (a.val myLink))))
+//@ loop 1 invariant fresh (and (> (sl.arr path) W0) (forall ((a Int) (i Int)) (! (=> (<= (owner a) W0) (= (Arr.Any.at H a i) (Arr.Any.at H0 a i))) :pattern ((Arr.Any.at H a i)))))
+//@ loop 2 invariant idx (<= (- 1) rangeindex)
+
+//@ func newDiffState
+//@ tags C06 C07 C15
+//@ modifies W Map.Int.Any Map.Int.Any.has Arr.S_iterItem@fresh diffState.*@fresh iterItemStack.*@fresh
+//@ requires nn (> newMast 0)
+//@ ensures res [C06 C07] (and (> result W0) (= (diffState.oldMast H result) oldMast) (isNil (diffState.curKey H result)) (isNil (diffState.addedLink H result)) (isNil (diffState.removedLink H result)) (> (diffState.alreadyNotifiedOldLink H result) 0) (> (diffState.alreadyNotifiedNewLink H result) 0))
+//@ ensures stacks [C06 C07] (and (<= (stackLen H (inner result fid.diffState.oldStack)) 1) (<= (stackLen H (inner result fid.diffState.newStack)) 1) (StackOKnil H (inner result fid.diffState.newStack)) (StackOKnil H (inner result fid.diffState.oldStack)))
